@@ -123,7 +123,7 @@ def psgVolume (v : Nat) : Nat :=
 def fmVolAdd (coarse : Bool) (v : Int) : Int :=
   if coarse then
     let x : Int := if v > 15 then 0 else 15 - v
-    md_fm_vol_formula.1 + x * md_fm_vol_formula.2.1 - Int.tdiv x md_fm_vol_formula.2.2
+    md_fm_vol_formula.1 + x * md_fm_vol_formula.2.1 - x / md_fm_vol_formula.2.2   -- x ≥ 0: C++ `/` = floor
   else v
 
 /-- the value `MD_FM::v_set_vol` writes to operator `op` (`int max_tl`, clamped to 0..127) -/
@@ -467,17 +467,27 @@ def advance (seqC pcmC : Int) : Option (Int × Int × Int) :=
   let n2 := if pcmC + n1 > 0 then n1 - (pcmC + n1) else n1
   if n2 = 0 then none else some (seqC + n2, pcmC + n2, n2)
 
+/-- `if(seq_counter >= 0) { seq_counter -= seq_delta; seq_update(); }` -/
+def stepSeq (d : Data) (song : Song) (s : Drv) : Drv × List Op :=
+  if s.seqCounter ≥ 0 then seqUpdate d song { s with seqCounter := s.seqCounter - seqDelta } else (s, [])
+
+/-- `if(pcm_counter >= 0) { pcm_counter -= pcm_delta; pcm.update(); }` (PCM mode 0: no write) -/
+def stepPcm (s : Drv) : Drv :=
+  if s.pcmCounter ≥ 0 then { s with pcmCounter := s.pcmCounter - pcmDelta } else s
+
+/-- `if(loop_trigger && get_loop_count() == 0) { set_loop(); reset_loop_count(); loop_trigger = 0; }` -/
+def stepLoop (s : Drv) : Drv × List Op :=
+  if s.g.loopTrigger ∧ loopCount s = 0 then
+    ({ s with chans := s.chans.map resetLoopCh, g := { s.g with loopTrigger := false } }, [Vgm.Op.setLoop])
+  else (s, [])
+
 /-- `MD_Driver::play_step` -/
 def playStep (d : Data) (song : Song) (s : Drv) : Drv × List Op × Int :=
-  let (s, o1) := if s.seqCounter ≥ 0 then seqUpdate d song { s with seqCounter := s.seqCounter - seqDelta } else (s, [])
-  let s := if s.pcmCounter ≥ 0 then { s with pcmCounter := s.pcmCounter - pcmDelta } else s
-  let (s, o2) : Drv × List Op :=
-    if s.g.loopTrigger ∧ loopCount s = 0 then
-      ({ s with chans := s.chans.map resetLoopCh, g := { s.g with loopTrigger := false } }, [Vgm.Op.setLoop])
-    else (s, [])
-  match advance s.seqCounter s.pcmCounter with
-  | none => ({ s with g := s.g.fail .nonInteger }, o1 ++ o2, 0)
-  | some (sc, pc, dl) => ({ s with seqCounter := sc, pcmCounter := pc }, o1 ++ o2, dl)
+  let r1 := stepSeq d song s
+  let r3 := stepLoop (stepPcm r1.1)
+  match advance r3.1.seqCounter r3.1.pcmCounter with
+  | none => ({ r3.1 with g := r3.1.g.fail .nonInteger }, r1.2 ++ r3.2, 0)
+  | some (sc, pc, dl) => ({ r3.1 with seqCounter := sc, pcmCounter := pc }, r1.2 ++ r3.2, dl)
 
 /-- `MD_Driver::play_song` (after `data.read_song`): data block, DAC stream setup, channels in
 track-map order -/
